@@ -722,7 +722,24 @@ pub fn env_like_names() -> Vec<String> {
 pub fn environments(tier: Tier) -> Vec<EnvSpec> {
     let named = |val: &str| -> Vec<(String, String)> { env_like_names().into_iter().map(|n| (n, val.to_string())).collect() };
     let common = |tz: &str, loc: &str| -> Vec<(String, String)> {
-        vec![("TZ".into(), tz.into()), ("LANG".into(), loc.into()), ("LC_ALL".into(), loc.into()), ("RUST_LOG".into(), "trace".into()), ("COLUMNS".into(), "1".into()), ("NO_COLOR".into(), "1".into())]
+        vec![
+            ("TZ".into(), tz.into()),
+            ("LANG".into(), loc.into()),
+            ("LC_ALL".into(), loc.into()),
+            ("LANGUAGE".into(), loc.into()),
+            ("RUST_LOG".into(), "trace".into()),
+            ("COLUMNS".into(), "1".into()),
+            ("NO_COLOR".into(), "1".into()),
+            // the session: another home, user, terminal, temporary directory (none of them exists)
+            ("HOME".into(), "/nonexistent/home".into()),
+            ("PWD".into(), "/nonexistent/cwd".into()),
+            ("USER".into(), "nobody".into()),
+            ("LOGNAME".into(), "nobody".into()),
+            ("TERM".into(), "dumb".into()),
+            ("TMPDIR".into(), "/nonexistent/tmp".into()),
+            ("SHELL".into(), "/bin/false".into()),
+            ("HOSTNAME".into(), "elsewhere".into()),
+        ]
     };
     let mut e1 = common("Pacific/Kiritimati", "tr_TR.UTF-8");
     e1.extend(named("1"));
@@ -738,7 +755,7 @@ pub fn environments(tier: Tier) -> Vec<EnvSpec> {
         // a Sunday midnight UTC that is also a multiple of 86400*7: 1970-01-04 was a Sunday -> 3 days + k weeks
         let week = 7 * 86_400u64;
         let start = 3 * 86_400 + 2_900 * week; // some Sunday in 2025
-        e3.push(("HOME".into(), "/nonexistent".into()));
+        e3.push(("HOME".into(), String::new()));
         all.push(EnvSpec { name: "clock 30 s before a week boundary (50 ms per reading), UTC, ja_JP, named variables = 0, no home".into(), vars: e3, clock: Some((start - 30, 50_000_000)), scale: 0.25 });
         let mut e4 = common("Asia/Kathmandu", "en_US.UTF-8");
         e4.extend(named("yes"));
@@ -762,6 +779,20 @@ fn apply_env(cmd: &mut std::process::Command, name: &str, vars: &[(String, Strin
             return Err(format!("clock shim {shim} missing"));
         }
         cmd.env("LD_PRELOAD", shim).env("FFV_CLOCK_BASE", base.to_string()).env("FFV_CLOCK_STEP_NS", step.to_string());
+    }
+    // another working directory and a restrictive file-creation mask
+    cmd.current_dir("/");
+    {
+        use std::os::unix::process::CommandExt;
+        unsafe {
+            cmd.pre_exec(|| {
+                extern "C" {
+                    fn umask(mask: u32) -> u32;
+                }
+                umask(0o077);
+                Ok(())
+            });
+        }
     }
     cmd.env("FFV_SCALE", scale.to_string());
     cmd.env("FFV_ENV_JSON", json!({"name": name, "vars": vars, "clock": clock.map(|(b, s)| json!({"base": b, "step_ns": s})), "scale": scale}).to_string());
